@@ -143,13 +143,18 @@ func (k msgServer) Complete(goCtx context.Context, msg *types.MsgComplete) (*typ
 		}
 		for i, order := range orderList {
 			newShards := make([]uint64, 0)
+			listed := false
 			for _, id := range order.Shards {
+				if id == shard.Id {
+					listed = true
+				}
 				if id != oldShard.Id {
 					newShards = append(newShards, id)
 				}
 			}
-			// first order has set new shard in shards in migrate
-			if i > 0 {
+			// first order has set new shard in shards in migrate, and so has every
+			// renewal order created since then: never list the new shard twice
+			if i > 0 && !listed {
 				newShards = append(newShards, shard.Id)
 			}
 			order.Shards = newShards
